@@ -9,7 +9,7 @@ COQ_PRELUDE = ''
 PER_FILE = 300
 CASE_TIMEOUT = 20
 RULE = ('kinds: loop = loop(list,tuple,dict)(f) on random nestings of lists / tuples / dict, OrderedDict, Dict, dictattr to depth 4 (empty containers included; dict keys are strings, ints, floats, tuples, None, '
-        'and in the lifted argument also mixes of those families; a shared stream places ONE sub-container object at 2-4 positions of a list / tuple / dict ([row] * n) with companions that differ per position; leaves are ints, None, strings of length 0-4, floats, +-inf; a few containers of 100-160 elements; also loop(list), loop(tuple), loop(dict), '
+        'and in the lifted argument also mixes of those families; a shared stream places ONE sub-container object at 2-4 positions of a list / tuple / dict ([row] * n) with companions that differ per position; leaves are ints, None, strings of length 0-4, floats, +-inf, class objects (str, list, dict, tuple, set, bytes) and functions; dict keys also frozensets (Dict / dictattr included) and look-alike mixes (10 and the string 10, None and the string None, True and the string True, ...) with companions keyed in another order; a few containers of 100-160 elements; also loop(list), loop(tuple), loop(dict), '
         'loop(list,tuple), ... where containers of the other types are leaves) '
         'with 0-3 companions that are scalars, same-shape, same-shape-at-the-top, different-shape or "deep" (a sub-container of the matching length / keys), passed '
         'positionally, by keyword or mixed (also the lifted argument itself by keyword), f recording exactly what it receives (lambda a,*args,**kw) or binding named '
@@ -118,7 +118,13 @@ def impl_setup():
 
 # dict keys: id 0-9 -> 'k0'..'k9'; 10-19 -> the int; 20-29 -> id+0.5 (float); 30-39 -> a tuple (id,) / (id, 'x'); 40 -> None.
 # The model only compares key SETS (sorted lists of ids), so the id order need not be Python's order.
+# look-alikes of other keys (41-48): the text of an int / None / bool / float / tuple key; 50-53 frozenset keys
+KEY_EXTRA = {41: '10', 42: 'None', 43: '11', 44: True, 45: 'True', 46: '20.5', 47: '(30,)', 48: '12',
+             50: frozenset({1}), 51: frozenset({1, 2}), 52: frozenset({3}), 53: frozenset({2, 3})}
+KEY_EXTRA_INV = {(type(v).__name__, v): k for k, v in KEY_EXTRA.items()}
+LOOKALIKE = [(10, 41), (40, 42), (11, 43), (44, 45), (20, 46), (30, 47), (12, 48)]
 def pykey(k):
+    if k in KEY_EXTRA: return KEY_EXTRA[k]
     if k < 10: return 'k%d' % k
     if k < 20: return k
     if k < 30: return k + 0.5
@@ -126,6 +132,7 @@ def pykey(k):
     return None
 def keyid(key):
     if key is None: return 40
+    if (type(key).__name__, key) in KEY_EXTRA_INV: return KEY_EXTRA_INV[(type(key).__name__, key)]
     if isinstance(key, str): return int(key[1:])
     if isinstance(key, tuple): return key[0]
     if isinstance(key, float): return int(key - 0.5)
@@ -135,7 +142,9 @@ def key_class(k):
 
 # leaf ids: k >= 0 the int k; -1 None; -2 .. -10 strings (lengths 0-4, so that a string companion can have the lifted list's length),
 # floats, +-inf; ids >= COLLAPSED stand for a whole container the lifter must treat as a leaf (loop(list) meeting a tuple, ...)
-SPECIAL = {-2: 'ab', -3: 'abc', -4: '', -5: 1.5, -6: float('inf'), -7: 'xy', -8: -0.5, -9: 'abcd', -10: float('-inf')}
+def _a_function(x): return x
+SPECIAL = {-2: 'ab', -3: 'abc', -4: '', -5: 1.5, -6: float('inf'), -7: 'xy', -8: -0.5, -9: 'abcd', -10: float('-inf'),
+           -15: str, -16: list, -17: dict, -18: tuple, -19: set, -20: bytes, -21: len, -22: _a_function}      # class objects and functions are scalars too
 SPECIAL_INV = {v: k for k, v in SPECIAL.items()}
 COLLAPSED = 100000
 class CustomError(Exception):
@@ -187,7 +196,7 @@ def render(x, ident=None):
         raise TypeError('bool leaf')
     if isinstance(x, int):
         return x
-    if isinstance(x, (str, float)):
+    if isinstance(x, (str, float, type)) or x is len or x is _a_function:
         return SPECIAL_INV[x]
     if type(x) is list:
         return ['L'] + [render(v, ident) for v in x]
@@ -581,7 +590,7 @@ class Ctr:
     def __init__(self, start=0, rng=None, p_special=0.0): self.n = start; self.rng = rng; self.p = p_special
     def next(self):
         if self.rng is not None and self.rng.random() < self.p:
-            return self.rng.choice([-1, -2, -3, -4, -5, -6, -7, -8, -9, -10])      # None, strings of length 0-4, floats, +-inf
+            return self.rng.choice([-1, -2, -3, -4, -5, -6, -7, -8, -9, -10, -15, -16, -17, -18, -19, -20, -21, -22])      # None, strings of length 0-4, floats, +-inf, class objects, functions
         self.n += 1; return self.n - 1
 
 def rand_keys(rng, w, mixed):
@@ -597,6 +606,13 @@ def rand_keys(rng, w, mixed):
         return rng.sample(range(30, 40), w), [0, 1]              # dictattr / Dict read a tuple key as a path
     if r < 0.90:
         return [40][:w], [0, 0, 1, 2, 3]
+    if w >= 1 and r < 0.93:           # frozenset keys (Dict / dictattr included: a frozenset is one key, not a selection of keys)
+        return rng.sample(range(50, 54), min(w, 4)), [0, 1, 2, 3]
+    if mixed and w >= 2 and rng.random() < 0.5:      # look-alike keys: 10 and '10', None and 'None', True and 'True', 20.5 and '20.5', (30,) and '(30,)'
+        pairs = rng.sample(LOOKALIKE, min(len(LOOKALIKE), (w + 1) // 2))
+        ks = [k for pr in pairs for k in pr][:w]
+        rng.shuffle(ks)
+        return ks, ([0, 1] if 30 in ks else [0, 0, 1, 2, 3])
     if mixed and w >= 2:
         pools = rng.sample([range(10), range(10, 30), range(30, 40), [40]], 2)
         ks = [rng.choice(list(pools[0])), rng.choice(list(pools[1]))]
@@ -630,8 +646,8 @@ def same_shape(rng, s, ctr, cut=99, swap=True):
         return {tag: [same_shape(rng, x, ctr, cut - 1, swap) for x in xs]}
     cls, items = s['D']
     items2 = [[k, same_shape(rng, v, ctr, cut - 1, swap)] for k, v in items]
-    if rng.random() < 0.3:
-        rng.shuffle(items2)
+    if rng.random() < 0.5 and not any(50 <= k < 60 for k, _ in items2):
+        rng.shuffle(items2)      # (frozenset keys keep the argument's order: sorted() on frozensets is a partial order, see KNOWN candidate in coverage/C19.md)
     return {'D': [rng.choice([cls, 0]), items2]}      # class 0 (dict) accepts every key
 
 def companion(rng, arg, ctr):
